@@ -131,6 +131,9 @@ type Peer struct {
 	Sent, Received []string
 	Alerts         [][2]byte
 	AppData        [][]byte
+	// RandNonce: GCM records carry an explicit nonce that is not the sequence number (six random bytes, then a
+	// counter)
+	RandNonce bool
 
 	// negotiation state
 	CH        *ref.ClientHello
@@ -190,7 +193,10 @@ func (p *Peer) SealRecord(typ byte, payload []byte) []byte {
 	if p.wProt != nil {
 		sb := ref.SeqBytes(p.DTLS, p.wEpoch, p.wSeq)
 		var explicit []byte
-		if p.wProt.IsGCM() {
+		if p.wProt.IsGCM() && p.RandNonce {
+			// the explicit part of the nonce is the sender's choice (it only has to be unique per key)
+			explicit = append(p.rnd(6), byte(p.wSeq>>8), byte(p.wSeq))
+		} else if p.wProt.IsGCM() {
 			explicit = sb[:]
 		} else {
 			explicit = p.rnd(16)
